@@ -27,10 +27,11 @@ RULE = ("conversions: per basic kind the range limits / powers of two / +-0 NaN 
         "structs with exported/unexported/*js.Object first fields, pointers to structs, interface{} with dynamic types) with "
         "values incl. nil; JS values plausible for the type (88%) or arbitrary. non-trivial = not a bare ASCII string / small "
         "int; distinct by (op, type, value). programs: generated accessor tables, Set/Get/Index/Call/Invoke/New probes, "
-        "exposed functions, tagged struct fields, wrapper identity, callback guard")
+        "exposed functions, tagged struct fields, wrapper identity, callback guard; every js.Object method receiver goes through a "
+        "counting function (each must be evaluated exactly once)")
 TRUSTED = ["model of $externalize/$internalize/$decodeRune/$encodeRune/$flatten64/64-bit constructors/fc.internalize written by hand "
            "(coq/Model/C11_JsMapping.v), tied by this correspondence",
-           "ECMAScript Number::toString/parseFloat round trip (modelled as identity except -0 -> 0), parseInt on numbers below 1e21 "
+           "parseInt on numbers below 1e21 "
            "(modelled as truncation), typed-array element coercions, Object.keys — checked on every generated number, not proved",
            "harness/js/c11_driver.js (value transport to/from the real prelude), harness/py/c11_lib.py (oracle from js/js.go's table)",
            "time.Time/Date, DOM Node, cyclic object graphs, MakeWrapper/MakeFullWrapper property enumeration: not modelled"]
@@ -38,14 +39,14 @@ ASSUMPTIONS = ["Go values satisfy their type's invariants (ints in range of thei
                "slices backed by the native array of their element kind — the slice constructor enforces it)",
                "JS objects passed in are plain data objects without __internal_object__ and without getters"]
 TECHNIQUE = "Coq proofs over an executable model of jsmapping.js + differential correspondence with the real prelude (node) and compiled programs"
-LEVEL_TEXT = ("Machine-checked theorems over a hand-written model of $externalize/$internalize: UTF-8 -> UTF-16 -> UTF-8 identity for all "
-              "valid strings (decode(encode r) = r for every scalar value by reducing the bit operations to div/mod arithmetic, lifted to strings by induction), UTF-16 -> UTF-8 -> UTF-16 "
-              "identity for well-formed input, U+FFFD degradation for invalid UTF-8 and lone low surrogates (refuted for unpaired high "
-              "surrogates — recorded finding), integer round trips per kind over the full range, 64-bit round trip below 2^53, float "
-              "round trip (refuted for -0 through $internalize — recorded finding), the interface{} table, nil <-> null (typed round trip "
-              "refuted for nil maps and nil struct pointers — recorded findings), wrapper-cache idempotence and injectivity, "
-              "callback guard.  The model is tied to /repo on every run by replaying generated conversions on the real prelude and on "
-              "the model, and by compiled programs.")
+LEVEL_TEXT = ("Machine-checked theorems over a hand-written model of $externalize/$internalize (repaired code, /repo 0509738): UTF-8 -> UTF-16 "
+              "-> UTF-8 identity for all valid strings (decode(encode r) = r for every scalar value by reducing the bit operations to div/mod "
+              "arithmetic, lifted to strings by induction), UTF-16 -> UTF-8 -> UTF-16 identity for well-formed input, EVERY JS string converts "
+              "like utf16.Decode + UTF-8 (unpaired surrogates -> U+FFFD), U+FFFD degradation for invalid UTF-8, integer round trips per kind "
+              "over the full range, 64-bit round trip below 2^53, float round trip for every number incl. -0/NaN/Inf, the interface{} table, "
+              "typed nil <-> null round trip for slices, maps, pointers and interface{}, wrapper-cache idempotence and injectivity, callback "
+              "guard.  The model is tied to /repo on every run by replaying generated conversions on the real prelude and on the model, and "
+              "by compiled programs (which also count that every js.Object method receiver is evaluated exactly once).")
 LEVEL_NOTE = ("Proofs are about the model; the tie is differential. Not modelled: time.Time, DOM nodes, cycles, wrappers' property "
               "enumeration, numbers >= 1e21 through parseInt, float32 rounding of non-representable values (model abstains, counted).")
 
@@ -319,7 +320,7 @@ def eval_model(ctx, items, tag):
         rc, out = C.coq_run(p)
         if rc == 124:
             SKIPPED.append("Coq evaluation of a model shard timed out (skipped %d cases)" % len(shards[k]))
-            return k, [2] * len(shards[k]), ""
+            return k, [3] * len(shards[k]), ""       # 3 = skipped (infrastructure), neither agreement nor abstention
         m = re.search(r"V\s*=\s*\[([^\]]*)\]", out.replace("\n", " "))
         if rc != 0 or not m:
             return k, None, out[-1200:]
@@ -346,7 +347,7 @@ def conversions(ctx):
     cases = boundary_cases(r)
     n_boundary = len(cases)
     scale = float(os.environ.get("C11_SCALE", "1"))
-    cases += random_cases(r, int(scale * (10000 if ctx.quick else 200000)), int(scale * (2000 if ctx.quick else 60000)))
+    cases += random_cases(r, int(scale * (10000 if ctx.quick else 100000)), int(scale * (2000 if ctx.quick else 20000)))
     ctx.log("conversion cases: %d" % len(cases))
     results = run_driver_sharded(cases)
     ctx.log("driver done")
@@ -417,7 +418,7 @@ GUARD_TEXT = "cannot block in JavaScript callback, fix by wrapping code in gorou
 
 def functions(ctx):
     r = ctx.rng("functions")
-    n = 60 if ctx.quick else max(60, int(1500 * float(os.environ.get("C11_SCALE", "1"))))
+    n = 60 if ctx.quick else max(60, int(600 * float(os.environ.get("C11_SCALE", "1"))))
     cases = []
     for i in range(n):
         nf = r.randint(1, 4)
@@ -923,7 +924,7 @@ def programs(ctx):
     fixed_program(ctx)
     ctx.log("fixed program done")
     r = ctx.rng("programs")
-    n = 12 if ctx.quick else max(3, int(150 * float(os.environ.get("C11_SCALE", "1"))))
+    n = 12 if ctx.quick else max(3, int(60 * float(os.environ.get("C11_SCALE", "1"))))
     progs = [gen_program(r, i, ctx.quick) for i in range(n)]
     items, stats = [], dict(program_observations=0)
     all_items = [[] for _ in range(n)]
